@@ -21,6 +21,9 @@ import drill  # noqa: E402
 def one(path):
     meta = json.load(open(path))
     d = os.path.dirname(path)
+    if meta.get("superseded_by_fix"):
+        # no longer breaks the property on the repaired tree (see its note): kept for the record
+        return meta["id"], ["(superseded by fix %s)" % meta["superseded_by_fix"]], None
     props = list(meta.get("checks_run") or [meta["breaks_property"]])
     if meta["breaks_property"] not in props:
         props.insert(0, meta["breaks_property"])
